@@ -57,6 +57,7 @@ SNIPPETS = [
     ("dict_get", dict(k=S, __locals__={"d": Dict(Str, Int, ordered=True), "out": List(Str)}), "d = {'a': 1, 'b': 2}\n    return (d.get(k), d.get(k, 0), k in d)", [dict(k="a"), dict(k="z")]),
     ("dict_setdel", dict(k=S, __locals__={"d": Dict(Str, Int, ordered=True), "out": List(Str)}), "d = {'a': 1}\n    d[k] = 5\n    n = len(d)\n    del d['a']\n    return (n, len(d), k in d)", [dict(k="a"), dict(k="b")]),
     ("dict_pop", dict(k=S, __locals__={"d": Dict(Str, Int, ordered=True), "out": List(Str)}), "d = {'a': 1}\n    return (d.pop(k, None), len(d))", [dict(k="a"), dict(k="b")]),
+    ("dict_copy", dict(k=S, __locals__={"d": Dict(Str, Int, ordered=True), "e": Dict(Str, Int, ordered=True)}), "d = {'a': 1}\n    e = d.copy()\n    e[k] = 5\n    return (d.get(k, 0), e.get(k, 0), len(d), len(e))", [dict(k="a"), dict(k="b")]),
     ("dict_keyerror", dict(k=S, __locals__={"d": Dict(Str, Int, ordered=True), "out": List(Str)}), "d = {'a': 1}\n    return d[k]", [dict(k="a"), dict(k="b")]),
     ("dict_iter_order", dict(k=S, __locals__={"d": Dict(Str, Int, ordered=True), "out": List(Str)}), "d = {'a': 1, 'b': 2}\n    d[k] = 3\n    out = []\n    for kk in d:\n        out.append(kk)\n    return out", [dict(k="c"), dict(k="a")]),
     ("set_ops", dict(i=Int, __locals__={"s": Set(Int)}), "s = {1, 2}\n    s.add(i)\n    n = len(s)\n    s.discard(1)\n    return (n, i in s, 1 in s)", [dict(i=3), dict(i=1)]),
